@@ -10,6 +10,7 @@ import (
 	"os/exec"
 	"path/filepath"
 	"reflect"
+	"sort"
 	"regexp"
 	"strconv"
 	"strings"
@@ -260,6 +261,7 @@ func cmdCLI(args []string) {
 			var libSets []map[string]interface{}
 			var libCounts []map[string]int
 			var libNames []map[string][]string
+			var libStatuses [][]int // per input: the status ordinals of the library's results (empty when there is no result set)
 			for ii := range ders {
 				t := &Target{Kind: kinds[ii], DER: ders[ii]}
 				ok := false
@@ -270,6 +272,7 @@ func cmdCLI(args []string) {
 				}
 				if !ok || !libOK {
 					libSets, libCounts, libNames = append(libSets, nil), append(libCounts, nil), append(libNames, nil)
+					libStatuses = append(libStatuses, []int{})
 					continue
 				}
 				rs, _, _ := runSet(t, libReg)
@@ -286,10 +289,17 @@ func cmdCLI(args []string) {
 					}
 				}
 				libCounts, libNames = append(libCounts, cnt), append(libNames, nm)
+				sts := []int{}
+				for _, r := range rs.Results {
+					sts = append(sts, int(r.Status))
+				}
+				sort.Ints(sts)
+				libStatuses = append(libStatuses, sts)
 			}
 			g.SetConfiguration(lint.NewEmptyConfig())
 			// ---- observed output
 			printed, match, junk := 0, true, false
+			tablesEv := []ev.M{} // the parsed tables with the input they belong to: judged by Summary!TableReasons in the trace
 			if s.Mode == "json" || s.Mode == "pretty" {
 				dec := json.NewDecoder(bytes.NewReader(so.Bytes()))
 				for {
@@ -319,15 +329,29 @@ func cmdCLI(args []string) {
 				}
 				for ti, tb := range tables {
 					ii := ti / per
-					if ii >= len(libCounts) || libCounts[ii] == nil || !tb.wellFormed(libCounts[ii], libNames[ii]) {
-						match = false
+					if ii >= len(libCounts) || libCounts[ii] == nil {
+						match = false // a table for an input that has no result set
+						continue
 					}
+					nl := make([]int, len(tb.names))
+					for k := range tb.names {
+						nl[k] = len(tb.names[k])
+					}
+					lv, cn := tb.levels, tb.counts
+					if lv == nil {
+						lv, cn = []string{}, []int{}
+					}
+					tablesEv = append(tablesEv, ev.M{"input": ii + 1, "long": tb.long, "levels": lv, "counts": cn, "nlines": nl, "namesOK": tb.namesOK(libNames[ii])})
 				}
 			}
 			if printed > len(libSets) {
 				match = false
 			}
-			e := ev.M{"ev": "CLI", "scn": s, "exitObs": exit, "printedObs": printed, "match": match, "junk": junk,
+			libSts := [][]int{}
+			for ii := range libStatuses {
+				libSts = append(libSts, libStatuses[ii])
+			}
+			e := ev.M{"ev": "CLI", "scn": s, "exitObs": exit, "printedObs": printed, "match": match, "junk": junk, "tables": tablesEv, "libSts": libSts,
 				"stderr": firstLine(se.String()), "objects": []string{certObj.ID, crlObj.ID}}
 			w.Emit(e)
 			outcome := "ok"
@@ -382,29 +406,22 @@ func parseTables(out string) []*cliTable {
 	return tables
 }
 
-func (t *cliTable) wellFormed(want map[string]int, names map[string][]string) bool {
-	if !reflect.DeepEqual(t.levels, []string{"info", "warn", "error", "fatal"}) {
-		return false
-	}
+// namesOK: every detail line of the long form names - possibly cut to the column width - a lint that has that level.
+// (A fact about strings; levels, counts and line numbers are judged by Summary.tla.)
+func (t *cliTable) namesOK(names map[string][]string) bool {
 	for i, lv := range t.levels {
-		if t.counts[i] != want[lv] {
-			return false
+		if i >= len(t.names) {
+			break
 		}
-		if t.long {
-			// one detail line per counted result; long lint names are cut to the column width, so names are compared as prefixes
-			if len(t.names[i]) != want[lv] {
-				return false
+		for _, shown := range t.names[i] {
+			found := false
+			for _, full := range names[lv] {
+				if strings.HasPrefix(full, shown) {
+					found = true
+				}
 			}
-			for _, shown := range t.names[i] {
-				found := false
-				for _, full := range names[lv] {
-					if strings.HasPrefix(full, shown) {
-						found = true
-					}
-				}
-				if !found {
-					return false
-				}
+			if !found {
+				return false
 			}
 		}
 	}
